@@ -34,7 +34,7 @@ C10_DiscoveryRouting == (J /\ Dsc) => \A k \in 1..Len(T.got) :
 C10_DiscoveryComplete == (J /\ Dsc) => (T.expected = Len(T.got) /\ T.strays = T.handlerStrays)
 \* a discovery issued with the token of one that is still pending is refused (and, by the two clauses above, does not
 \* take over or remove the pending one's registration)
-C10_DiscoveryDupRefused == (J /\ Dsc) => T.dupRefused
+C10_DiscoveryDupRefused == (J /\ Dsc) => (T.dupRefused /\ ~T.dupOnWire)   \* ... and a refused request is not transmitted either
 \* a peer whose handler is stuck and whose receive queue is full parks the server's read loop; once that peer's connection
 \* is closed the other peers are served again, and the server can still be stopped
 Stk == T.op = "stuck"
